@@ -7,8 +7,10 @@ id="$1"; name="$2"; demo="$3"
 wt=/tmp/seed-$id; out=/tmp/seed-$id-out; dst=/verif/seeded/$name
 cd $wt || exit 9
 export CARGO_NET_OFFLINE=true
-git diff -- src > /tmp/seed-$id.patch
+# the sub-agent's patch.diff holds the library change only (a demo `mod` line, if any, is not in it)
+if [ -s $out/patch.diff ]; then cp $out/patch.diff /tmp/seed-$id.patch; else git diff -- src > /tmp/seed-$id.patch; fi
 [ -s /tmp/seed-$id.patch ] || { echo "NO SOURCE DIFF"; exit 9; }
+git apply -R --check /tmp/seed-$id.patch || { echo "patch.diff does not match the worktree"; exit 9; }
 echo "== suite with patch"
 cargo nextest run --workspace --no-fail-fast --offline --test-threads 8 > /tmp/seed-$id.suite.log 2>&1
 python3 - "$id" <<'PY'
